@@ -162,6 +162,52 @@ fn compare_by_token_amounts(pre: &Ledger, post: &Ledger, ix: &Ix, idx: usize, co
     cov.probe("by_token_amounts_equals_anchor_increase");
 }
 
+/// reposition has no Anchor twin; its re-ranging step has one: the Anchor `reset_position_range` instruction. On a copy
+/// where the position is emptied, Anchor's verdict on the new range must agree with what the Pinocchio instruction did.
+fn compare_reposition_range(pre: &Ledger, ix: &Ix, live_ok: bool, live_code: Option<u32>, idx: usize, cov: &mut Coverage, out: &mut Vec<Violation>) {
+    let Some(c) = wpix::decode(ix) else { return };
+    let mut r = c.args();
+    let (lo, hi) = (r.i32(), r.i32());
+    let pk = c.a("position");
+    let Some(pa) = pre.get(&pk).cloned() else { return };
+    if pa.data.len() != 216 {
+        return;
+    }
+    let mut d = (*pa.data).clone();
+    d[72..88].fill(0); // liquidity
+    d[112..120].fill(0); // fee owed A
+    d[136..144].fill(0); // fee owed B
+    for i in 0..3 {
+        let o = 144 + i * 24 + 16;
+        d[o..o + 8].fill(0); // reward owed
+    }
+    let mut f = pre.clone();
+    f.put(pk, crate::rt::Account { lamports: pa.lamports, data: std::rc::Rc::new(d), owner: pa.owner, executable: false });
+    let reset = crate::ix::mk(
+        whirlpool::accounts::ResetPositionRange {
+            funder: c.a("funder"),
+            position_authority: c.a("position_authority"),
+            whirlpool: c.a("whirlpool"),
+            position: pk,
+            position_token_account: c.a("position_token_account"),
+            system_program: crate::ix::sys(),
+        },
+        whirlpool::instruction::ResetPositionRange { new_tick_lower_index: lo, new_tick_upper_index: hi },
+    );
+    let a = rt::exec_tx_simple(&mut f, &rt::Tx { ixs: vec![reset] });
+    let a_code = a.custom();
+    // verdicts about the range itself: invalid tick index, full-range-only pool, same range
+    let range_code = |c: Option<u32>| matches!(c, Some(6010) | Some(6054) | Some(6060));
+    cov.eval(format!("reposition_range|pinocchio_ok={}|anchor_ok={}|anchor_range_verdict={}", live_ok, a.ok, range_code(a_code)));
+    cov.probe("reposition_range_vs_anchor_reset");
+    if live_ok && !a.ok && range_code(a_code) {
+        out.push(viol("range_verdict_differs", idx, format!("reposition_liquidity_v2 re-ranged the position to {}..{} but the Anchor reset_position_range rejects that range ({:?})", lo, hi, a_code)));
+    }
+    if !live_ok && range_code(live_code) && a.ok {
+        out.push(viol("range_verdict_differs", idx, format!("reposition_liquidity_v2 rejects the range {}..{} ({:?}) but the Anchor reset_position_range accepts it", lo, hi, live_code)));
+    }
+}
+
 impl Monitor for C12 {
     fn name(&self) -> &'static str {
         "C12"
@@ -188,10 +234,15 @@ impl Monitor for C12 {
                 } else if wpix::decode(v.ix).map(|c| c.name() == "increase_liquidity_by_token_amounts_v2").unwrap_or(false) {
                     compare_by_token_amounts(v.pre, v.post, v.ix, ev.idx, cov, &mut out);
                 }
+                if wpix::decode(v.ix).map(|c| c.name() == "reposition_liquidity_v2").unwrap_or(false) {
+                    compare_reposition_range(v.pre, v.ix, true, None, ev.idx, cov, &mut out);
+                }
             }
         } else if ev.tx.ixs.len() == 1 && rt::has_anchor_twin(&ev.tx.ixs[0]) {
             let fc = ev.fail_cpi.and_then(|(i, k)| if i == 0 { Some(k) } else { None });
             compare(ev.pre, &ev.tx.ixs[0], fc, ev.idx, cov, &mut out);
+        } else if ev.tx.ixs.len() == 1 && ev.fail_cpi.is_none() && wpix::decode(&ev.tx.ixs[0]).map(|c| c.name() == "reposition_liquidity_v2").unwrap_or(false) {
+            compare_reposition_range(ev.pre, &ev.tx.ixs[0], false, ev.out.custom(), ev.idx, cov, &mut out);
         }
         out
     }
